@@ -144,7 +144,9 @@ class Run:
             for n in fi['nonterminating']:
                 self.notes.append('termination not proved: ' + n)
         for c in R['covers']:
-            if c['status'] == 'unsat':
+            # fatal: contradictory requires / unreachable function exit.  A point after a loop may legitimately be
+            # unreachable (loop left only by return); those are reported in the evidence only.
+            if c['status'] == 'unsat' and (c['what'] in ('function exit', 'requires satisfiable')):
                 self.broken.append('vacuity guard: %s (%s) is unreachable / contradictory' % (c['id'], c['what']))
         # bounded differential runs (also the refuter for failed obligations)
         generators = generators or {}
